@@ -7,6 +7,7 @@
 # The AUTHORS file and the LICENSE file are at the
 # top level of this library.
 
+import codecs
 import inspect
 import io
 import urllib.request
@@ -135,6 +136,9 @@ def decode_by_char(f: io.RawIOBase) -> str:
     be returned.
     """
     s = ""
+    # Bytes must go through an incremental decoder, decoding each byte
+    # on its own would stop at the first multi-byte character.
+    decoder = codecs.getincrementaldecoder("utf-8")()
     try:
         for elem in iter(lambda: f.read(1), b""):
             if isinstance(elem, str):
@@ -142,7 +146,7 @@ def decode_by_char(f: io.RawIOBase) -> str:
                     break
                 s += elem
             else:
-                s += elem.decode()
+                s += decoder.decode(elem)
 
     except UnicodeError:
         # Expecting this to mean that we got to the end of decodable
